@@ -24,7 +24,7 @@ fn vio(class: &str, what: String, case: &Case, detail: Value) -> Violation {
 // ---------------------------------------------------------------------------------------------
 
 pub fn annot_grammars(tier: Tier) -> Vec<String> {
-    let pool: Vec<&str> = vec!["\"a\"", "'a'", "/a/", "\"a.\"", "'a.'", "'b'", "'a' ?= 'b'", "\"a\" ?= 'b'", "'a' ?! \"b\"", "/b+/"];
+    let pool: Vec<&str> = vec!["\"a\"", "'a'", "/a/", "\"a.\"", "'a.'", "'b'", "'a' ?= 'b'", "\"a\" ?= 'b'", "'a' ?! \"b\"", "/b+/", "/a+/ ?= '.'", "'a+' ?! /b+/"];
     let mut out = vec![];
     let skeletons2: Vec<&str> = vec![
         "S: {0} {1};",
@@ -137,8 +137,17 @@ fn numbering(cfg: &parol::Cfg) -> Vec<(Ident, Vec<usize>)> {
 
 fn eval_c18(case: &Case, acc: &Acc) -> Vec<Violation> {
     let mut out = vec![];
+    let short = case.par.replace('\n', " ");
     let g = match catch(|| pipeline(&case.par, case.k, &GenCfg::default())) {
         Ok(Ok(g)) => g,
+        Ok(Err(e)) if matches!(e.stage, crate::bind::Stage::Analysis) => {
+            // rejected by the analysis: must not be because two terminals were confused
+            acc.outcome("rejected_by_analysis");
+            if let Some(w) = identity_says_acceptable(&case.par, case.k) {
+                out.push(vio("analysis_rejects_grammar_that_is_fine_when_terminals_are_told_apart", format!("{short}: {w}; parol: {}", e.msg.chars().take(80).collect::<String>()), case, json!({})));
+            }
+            return out;
+        }
         _ => {
             acc.outcome("not_accepted");
             return out;
@@ -146,7 +155,6 @@ fn eval_c18(case: &Case, acc: &Acc) -> Vec<Violation> {
     };
     acc.outcome("accepted");
     acc.eval(1);
-    let short = case.par.replace('\n', " ");
     let bound = match bind(&g.parser_src) {
         Ok(b) => b,
         Err(m) => {
@@ -154,6 +162,9 @@ fn eval_c18(case: &Case, acc: &Acc) -> Vec<Violation> {
             return out;
         }
     };
+    if let Some((class, what)) = identity_analysis(&g, &bound, case.k) {
+        out.push(vio(class, format!("{short}: {what}"), case, json!({})));
+    }
     let num = numbering(&g.gc.cfg);
     let number_of = |id: &Ident| -> Option<usize> { num.iter().position(|(i, _)| i == id).map(|p| p + 5) };
     let same_text_styles = num.iter().any(|(a, _)| num.iter().any(|(b, _)| a != b && a.text == b.text));
@@ -280,6 +291,157 @@ fn eval_c18(case: &Case, acc: &Acc) -> Vec<Violation> {
         acc.sample(json!({"grammar": short, "terminal_numbering": num.iter().enumerate().map(|(i, (id, st))| format!("{} = {:?} raw={} la={:?} states={:?}", i + 5, id.text, id.raw, id.la, st)).collect::<Vec<_>>()}));
     }
     out
+}
+
+
+// --- C18: the analysis results (automata / LR table) against a reference that tells terminals apart ---
+
+fn strings_over16(alpha: &[u16], n: usize) -> Vec<Vec<u16>> {
+    let mut res = vec![vec![]];
+    let mut layer: Vec<Vec<u16>> = vec![vec![]];
+    for _ in 0..n {
+        let mut nx = vec![];
+        for w in &layer {
+            for a in alpha {
+                let mut z = w.clone();
+                z.push(*a);
+                nx.push(z);
+            }
+        }
+        res.extend(nx.iter().cloned());
+        layer = nx;
+    }
+    res
+}
+
+fn transformed_only(par: &str) -> Option<parol::GrammarConfig> {
+    let mut gc = parol::obtain_grammar_config_from_string(par, false).ok()?;
+    let ignored: std::collections::BTreeSet<String> = gc.unreachable_non_terminals_to_ignore.iter().cloned().collect();
+    let t = parol::generators::grammar_trans::check_and_transform_grammar_with_ignored(&gc.cfg, gc.grammar_type, &ignored).ok()?;
+    gc.update_cfg(t);
+    Some(gc)
+}
+
+/// Some(reason) if the reference, working on terminal identities (text, raw-or-regex class,
+/// lookahead), finds the transformed grammar LL(k<=K) / LALR(1)
+fn identity_says_acceptable(par: &str, k_limit: usize) -> Option<String> {
+    use crate::refs::*;
+    let gc = catch(|| transformed_only(par)).ok()??;
+    let rb = RBnf::of(&gc.cfg);
+    match gc.grammar_type {
+        parol::parser::parol_grammar::GrammarType::LLK => {
+            let mk = minimal_ks(&rb, k_limit);
+            if mk.iter().all(|m| m.is_some()) {
+                return Some(format!("reference: strong LL(k) with k per non-terminal {:?}", mk.iter().map(|m| m.unwrap()).collect::<Vec<_>>()));
+            }
+            None
+        }
+        _ => {
+            let rr = crate::refs_lr::lalr1_conflicts(&rb);
+            if rr.conflicts.is_empty() {
+                return Some("reference LALR(1) construction finds no conflict".into());
+            }
+            None
+        }
+    }
+}
+
+fn identity_analysis(g: &Generated, bound: &Bound, k_limit: usize) -> Option<(&'static str, String)> {
+    use crate::refs::*;
+    let rb = RBnf::of(&g.gc.cfg);
+    let mut alpha: Vec<u16> = rb.terminals();
+    match (&bound.tables, &g.analysis) {
+        (Tables::Ll { las, .. }, Analysis::Ll(_)) => {
+            let mk = minimal_ks(&rb, k_limit);
+            if mk.iter().any(|m| m.is_none()) {
+                return Some(("analysis_accepts_grammar_that_is_not_ll_when_terminals_are_told_apart", format!("reference minimal k per non-terminal: {mk:?}")));
+            }
+            alpha.push(END);
+            let mut la_by_k: std::collections::BTreeMap<usize, Vec<Set>> = Default::default();
+            for (ni, n) in rb.nts.iter().enumerate() {
+                let k = mk[ni].unwrap();
+                let la = la_by_k.entry(k).or_insert_with(|| la_sets(&rb, k)).clone();
+                let ps = prods_of(&rb, ni);
+                if ps.len() < 2 {
+                    continue;
+                }
+                let trans = las[ni].transitions;
+                for w in strings_over16(&alpha, k + 1) {
+                    if w.iter().rev().skip(1).any(|t| *t == END) {
+                        continue;
+                    }
+                    let expect: Option<usize> = ps.iter().copied().find(|p| la[*p].contains(&w));
+                    // read the automaton as a DFA from state 0
+                    let mut st = 0usize;
+                    let mut prod: i64 = las[ni].prod0 as i64;
+                    let mut dead = false;
+                    for t in &w {
+                        match trans.iter().find(|tr| tr.0 == st && tr.1 == *t) {
+                            Some(tr) => {
+                                st = tr.2;
+                                prod = tr.3 as i64;
+                            }
+                            None => {
+                                dead = true;
+                                break;
+                            }
+                        }
+                    }
+                    let got = if dead || prod < 0 { None } else { Some(prod as usize) };
+                    if got != expect {
+                        return Some(("lookahead_automaton_uses_other_terminal_numbers", format!("non-terminal {n} (k={k}): token string {w:?} reaches production {got:?}, the lookahead sets over told-apart terminals say {expect:?}")));
+                    }
+                }
+            }
+            None
+        }
+        (Tables::Lr { table, prods }, Analysis::Lr(_, nconf)) => {
+            if *nconf > 0 {
+                return None;
+            }
+            // token-level run of the generated table against the language over told-apart terminals
+            let n = 4usize;
+            let first = first_k(&rb, n + 1);
+            let lang: std::collections::BTreeSet<Vec<u16>> = first.nts[rb.start].iter().filter(|w| w.len() <= n && !w.contains(&END)).cloned().collect();
+            for w in strings_over16(&alpha, n) {
+                let mut stack: Vec<usize> = vec![0];
+                let mut i = 0usize;
+                let mut steps = 0usize;
+                let verdict = loop {
+                    steps += 1;
+                    if steps > 10_000 {
+                        break None;
+                    }
+                    let t = w.get(i).copied().unwrap_or(END);
+                    match table.action(*stack.last().unwrap(), t) {
+                        None => break Some(false),
+                        Some(parol_runtime::lr_parser::LRAction::Shift(s)) => {
+                            stack.push(*s);
+                            i += 1;
+                        }
+                        Some(parol_runtime::lr_parser::LRAction::Reduce(nt, p)) => {
+                            let len = prods[*p].len;
+                            if stack.len() <= len {
+                                break Some(false);
+                            }
+                            stack.truncate(stack.len() - len);
+                            match table.goto(*stack.last().unwrap(), *nt) {
+                                Some(s) => stack.push(s),
+                                None => break Some(false),
+                            }
+                        }
+                        Some(parol_runtime::lr_parser::LRAction::Accept) => break Some(i == w.len()),
+                    }
+                };
+                let Some(v) = verdict else { continue };
+                if v != lang.contains(&w) {
+                    return Some(("lr_table_uses_other_terminal_numbers", format!("token string {w:?}: the generated table {} it, the grammar over told-apart terminals {}", if v { "accepts" } else { "rejects" }, if v { "does not derive it" } else { "derives it" })));
+                }
+            }
+            None
+        }
+        _ => None,
+    }
 }
 
 // ---------------------------------------------------------------------------------------------
@@ -561,16 +723,69 @@ fn check_mode(m: &ModeText, sc: &parol::ScannerConfig, mi: usize, mj: &Value, bo
     if has(err) == sc.allow_unmatched {
         bad("scanner_error_rule_differs", format!("mode {}: error rule present={} allow_unmatched={}", m.name, has(err), sc.allow_unmatched));
     }
-    let want_on: Vec<(usize, String)> = sc.transitions.iter().map(|(t, s)| (*t as usize, format!("{s}").to_lowercase())).collect();
-    let got_on: Vec<(usize, String)> = m.on.iter().map(|(t, s)| (*t, s.to_lowercase())).collect();
-    let norm = |v: &Vec<(usize, String)>| -> Vec<(usize, String)> {
-        let mut w: Vec<(usize, String)> = v.iter().map(|(t, s)| (*t, s.replace("enter ", "").replace("push ", "push:").trim().to_string())).collect();
-        w.sort();
-        w
-    };
-    let _ = (norm(&want_on), norm(&got_on));
-    if want_on.len() != got_on.len() || want_on.iter().map(|x| x.0).collect::<Vec<_>>() != got_on.iter().map(|x| x.0).collect::<Vec<_>>() {
+    let want_on: Vec<(usize, String)> = sc.transitions.iter().map(|(t, s)| (*t as usize, format!("{s}"))).collect();
+    let got_on: Vec<(usize, String)> = m.on.iter().map(|(t, s)| (*t, s.trim().to_string())).collect();
+    if want_on != got_on {
         bad("scanner_transitions_differ", format!("mode {}: source {:?}, configuration {:?}", m.name, got_on, want_on));
+    }
+    // the export model's transitions: kind and target
+    let model_on: Vec<(usize, String)> = mj["scanner"]["scanner_states"][mi]["transitions"]
+        .as_array()
+        .map(|a| {
+            a.iter()
+                .map(|x| {
+                    let t = x["terminal_index"].as_u64().unwrap_or(u64::MAX) as usize;
+                    let name = x["target_scanner_name"].as_str().unwrap_or("");
+                    let by_index = x["target_scanner_state"].as_u64().and_then(|i| mj["scanner"]["scanner_states"][i as usize]["scanner_name"].as_str());
+                    let d = match x["kind"].as_str().unwrap_or("") {
+                        "Enter" => format!("enter {name}"),
+                        "Push" => format!("push {name}"),
+                        "Pop" => "pop".to_string(),
+                        k => format!("?{k}"),
+                    };
+                    if x["kind"].as_str() != Some("Pop") && by_index != Some(name) {
+                        return (t, format!("{d} (target index names {by_index:?})"));
+                    }
+                    (t, d)
+                })
+                .collect()
+        })
+        .unwrap_or_default();
+    if model_on != want_on {
+        bad("model_scanner_transitions_differ", format!("mode {}: model {:?}, configuration {:?}", m.name, model_on, want_on));
+    }
+    // every terminal the model places in this mode: pattern and lookahead as in the source rule of that number
+    for t in mj["scanner"]["terminals"].as_array().cloned().unwrap_or_default() {
+        if !t["scanner_states"].as_array().is_some_and(|a| a.iter().any(|x| x.as_u64() == Some(mi as u64))) {
+            continue;
+        }
+        let idx = t["index"].as_u64().unwrap_or(u64::MAX) as usize;
+        let model_rule = (
+            t["expanded_pattern"].as_str().unwrap_or("").to_string(),
+            if t["lookahead"].is_null() { None } else { Some((t["lookahead"]["is_positive"].as_bool().unwrap_or(false), t["lookahead"]["expanded_pattern"].as_str().unwrap_or("").to_string())) },
+        );
+        match m.tokens.iter().find(|r| r.2 == idx) {
+            None => bad("model_terminal_missing_in_source_mode", format!("mode {}: model terminal {idx} has no rule in the generated scanner", m.name)),
+            Some(r) => {
+                if (r.0.clone(), r.1.clone()) != model_rule {
+                    bad("model_terminal_pattern_differs", format!("mode {}: terminal {idx}: source rule ({:?}, {:?}), model {:?}", m.name, r.0, r.1, model_rule));
+                }
+            }
+        }
+    }
+    // and the other way round: every user terminal rule of the source mode is in the model with this mode
+    let err_ty = bound.tnames.len() - 1;
+    for r in m.tokens.iter().filter(|r| r.2 >= 5 && r.2 != err_ty) {
+        let listed = mj["scanner"]["terminals"].as_array().is_some_and(|a| a.iter().any(|t| t["index"].as_u64() == Some(r.2 as u64) && t["scanner_states"].as_array().is_some_and(|st| st.iter().any(|x| x.as_u64() == Some(mi as u64)))));
+        if !listed {
+            bad("source_terminal_missing_in_model_mode", format!("mode {}: generated scanner rule {} is not listed for this state in the model", m.name, r.2));
+        }
+    }
+    let ms0 = &mj["scanner"]["scanner_states"][mi];
+    let model_lc: Vec<String> = ms0["line_comments"].as_array().map(|a| a.iter().map(|x| x.as_str().unwrap_or("").to_string()).collect()).unwrap_or_default();
+    let model_bc: Vec<(String, String)> = ms0["block_comments"].as_array().map(|a| a.iter().map(|x| (x[0].as_str().unwrap_or("").to_string(), x[1].as_str().unwrap_or("").to_string())).collect()).unwrap_or_default();
+    if model_lc != sc.line_comments || model_bc != sc.block_comments || ms0["scanner_name"].as_str() != Some(&sc.scanner_name) || ms0["scanner_state"].as_u64() != Some(mi as u64) {
+        bad("model_scanner_state_differs", format!("mode {}: comments / name / index: model {}", m.name, ms0));
     }
     let skips: Vec<u16> = bound.skips.get(mi).map(|s| s.to_vec()).unwrap_or_default();
     if skips != sc.skip_tokens {
